@@ -54,6 +54,16 @@ func newAMRunner() *amRunner {
 	for i := range r.msgs {
 		// the message class must not matter to Process: id i carries class i (request, indication, success, error)
 		r.msgs[i] = &stun.Message{TransactionID: amTID(int8(i)), Type: stun.NewType(stun.MethodBinding, stun.MessageClass(i%4))}
+		if i%2 == 1 {
+			// the id of a message is its TransactionID field. This one was assigned after the header had been written for
+			// another transaction (a reused message object): its raw bytes still carry the NEIGHBOUR's id.
+			m := stun.New()
+			m.Type = r.msgs[i].Type
+			m.TransactionID = amTID(int8((i + 1) % len(r.msgs)))
+			m.WriteHeader()
+			m.TransactionID = amTID(int8(i))
+			r.msgs[i] = m
+		}
 	}
 
 	return r
